@@ -269,6 +269,9 @@ def run_check(check: Check, tier: str, master: int, jobs: int, runs=None, out=sy
             used = 0
         path = write_replay(check, scenario, vv, minimised_from={"bytes": orig_size, "executions": used, "run_index": i})
         replay_paths.append(path)
+        if n < int(cfg.get("max_replay_checks", 3)) and not _replays_in_fresh_process(path):
+            # a violation that does not replay from its file in a fresh interpreter is my bug, not a finding
+            harness_errors.append({"i": i, "harness_error": f"replay file {path} does not reproduce the violation in a fresh process"})
         print(f"VIOLATION property={check.prop} replay={path}", file=out)
         print(f"  clause={vv['clause']} subject={vv['subject']} cond={json.dumps(vv.get('cond', {}), sort_keys=True)}", file=out)
         print(f"  detail={vv['detail'][:300]}", file=out)
@@ -351,6 +354,16 @@ def run_check(check: Check, tier: str, master: int, jobs: int, runs=None, out=sy
         print("HARNESS-ERROR no run completed", file=out)
         return 2
     return 0
+
+
+def _replays_in_fresh_process(path):
+    import subprocess
+
+    try:
+        cp = subprocess.run([sys.executable, os.path.join(ROOT, "run.py"), "replay", path], capture_output=True, text=True, timeout=900)
+    except Exception:
+        return False
+    return cp.returncode == 1 and "VIOLATION property=" in cp.stdout
 
 
 def _abbrev(o, max_list=12, depth=0):
